@@ -260,6 +260,7 @@ type Frame struct {
 	rets           []retPoint
 	lockOrdinals   map[ssa.Instruction]int
 	run            *Run
+	curLoop        *loopInfo // set while a loop's clauses are evaluated
 }
 
 type retPoint struct {
@@ -813,6 +814,15 @@ func (r *Run) freshRef(st *State, hint string) Term {
 
 func (r *Run) typeTag(t types.Type) Term {
 	k := typeName(t)
+	id, ok := r.typeTags[k]
+	if !ok {
+		id = len(r.typeTags) + 1
+		r.typeTags[k] = id
+	}
+	return mkInt(int64(id))
+}
+
+func (r *Run) tagByName(k string) Term {
 	id, ok := r.typeTags[k]
 	if !ok {
 		id = len(r.typeTags) + 1
